@@ -139,6 +139,26 @@ func init() {
 			}
 			lf.natList(v.lean, bytesOf(first))
 		}
+
+		// ---- rows by content against rows by the loader's rule (counts over the whole files) -------------------------
+		// by content: the first two blank-separated fields are 0xHHHH 0xHHHH, whatever follows (e.g. an inline comment);
+		// by the loader: strings.Split(line, " ") has exactly two pieces and both are 0xHHHH after TrimSpace.
+		hexF := regexp.MustCompile(`^0x[0-9A-Fa-f]{4}$`)
+		for _, v := range []struct{ lean, goName string }{{"b2u", "BIG5_TO_UTF8"}, {"u2b", "UTF8_TO_BIG5"}} {
+			tv := p.TypesInfo.Types[varInit(p, v.goName)]
+			b, _ := os.ReadFile(filepath.Join(repo, constant.StringVal(tv.Value)))
+			byContent, byLoader := 0, 0
+			for _, line := range strings.Split(string(b), "\n") {
+				if fs := strings.Fields(line); len(fs) >= 2 && hexF.MatchString(fs[0]) && hexF.MatchString(fs[1]) {
+					byContent++
+				}
+				if ps := strings.Split(line, " "); len(ps) == 2 && hexF.MatchString(strings.TrimSpace(ps[0])) && hexF.MatchString(strings.TrimSpace(ps[1])) {
+					byLoader++
+				}
+			}
+			lf.nat(v.lean+"RowsByContent", byContent)
+			lf.nat(v.lean+"RowsByLoaderRule", byLoader)
+		}
 		lf.write(out)
 	})
 }
